@@ -255,4 +255,23 @@ theorem min4_sound {data : ByteArray} {p q limit r : Nat}
             have := ag5.append hag
             rwa [Nat.add_comm 5 n] at this
 
+/-- a non-zero result of `FindMatchLengthWithLimitMin4` is at least 4 when the limit allows it -/
+theorem min4_ge4 {data : ByteArray} {p q limit r : Nat}
+    (h : findMatchLengthWithLimitMin4 data p q limit = some r) (hr : r ≠ 0) (hl : 4 ≤ limit) : 4 ≤ r := by
+  unfold findMatchLengthWithLimitMin4 at h
+  cases hw1 : win data p 5 with
+  | none => simp [hw1] at h
+  | some w1 =>
+    cases hw2 : win data q 5 with
+    | none => simp [hw1, hw2] at h
+    | some w2 =>
+      simp only [hw1, hw2] at h
+      split at h
+      · injection h with h; exact absurd h.symm hr
+      · split at h
+        · injection h with h; subst h; omega
+        · cases hc : complexFindMatchLengthWithLimit data (p + 5) (q + 5) (limit - 5) with
+          | none => simp [hc] at h
+          | some n => simp only [hc, Option.some.injEq] at h; omega
+
 end BV.MatchFinder
